@@ -319,7 +319,12 @@ func (self *BinaryConv) doRecurse(ctx context.Context, desc *thrift.TypeDescript
 					return unwrapError(fmt.Sprintf("mapping field %s of STRUCT %s failed", field.Name(), desc.Type()), err)
 				}
 			} else {
-				err = self.doRecurse(ctx, field.Type(), out, nil, p)
+				// keep http-mapping fields of deeper structs (containers still get no response setter)
+				var nresp http.ResponseSetter
+				if field.Type().Type() == thrift.STRUCT {
+					nresp = resp
+				}
+				err = self.doRecurse(ctx, field.Type(), out, nresp, p)
 				if err != nil {
 					return unwrapError(fmt.Sprintf("converting field %s of STRUCT %s failed", field.Name(), desc.Type()), err)
 				}
@@ -397,7 +402,7 @@ func (self *BinaryConv) handleUnsets(b *thrift.RequiresBitmap, desc *thrift.Stru
 	return b.HandleRequires(desc, self.opts.WriteRequireField, self.opts.WriteDefaultField, self.opts.WriteOptionalField, func(field *thrift.FieldDescriptor) error {
 		// check if field has http mapping
 		var ok = false
-		if hms := field.HTTPMappings(); self.opts.EnableHttpMapping && hms != nil {
+		if hms := field.HTTPMappings(); self.opts.EnableHttpMapping && hms != nil && resp != nil {
 			// make a default thrift value
 			p := thrift.BinaryProtocol{Buf: make([]byte, 0, conv.DefaulHttpValueBufferSizeForJSON)}
 			if err := p.WriteDefaultOrEmpty(field); err != nil {
@@ -549,6 +554,10 @@ func (self *BinaryConv) writeHttpValue(ctx context.Context, resp http.ResponseSe
 					return false, unwrapError(fmt.Sprintf("reading thrift value of '%s' failed, thrift pos:%d", field.Name(), p.Read), err)
 				}
 				textVal = rt.Str2Mem(primitive.KitexToString(obj))
+				if textVal == nil {
+					// an empty text is a value too: do not read the thrift value again for the next mapping
+					textVal = []byte{}
+				}
 				val = textVal
 			} else {
 				val = textVal
